@@ -482,6 +482,115 @@ fn all_blocks(vals: &[f64], shapes: &[(usize, usize)]) -> Vec<Dense> {
     out
 }
 
+/// block grids of every shape up to 3 block rows x 3 block columns with all row heights and column widths in
+/// {1,2} and two fill patterns per block: hvcat / blockdiag against dense placement; one grid cell optionally
+/// gets a wrong height (must be refused)
+pub struct Grids;
+impl Grids {
+    fn shapes() -> Vec<(usize, usize)> {
+        let mut v = vec![];
+        for r in 1..=3 {
+            for c in 1..=3 {
+                if r * c <= 6 {
+                    v.push((r, c));
+                }
+            }
+        }
+        v
+    }
+    fn per(r: usize, c: usize) -> u64 {
+        (1u64 << r) * (1u64 << c) * (1u64 << (r * c)) * (r * c + 1) as u64
+    }
+    fn decode(id: u64) -> (usize, usize, Vec<usize>, Vec<usize>, u64, usize) {
+        let mut id = id;
+        for (r, c) in Self::shapes() {
+            let n = Self::per(r, c);
+            if id < n {
+                let mut d = Digits(id);
+                let hs: Vec<usize> = (0..r).map(|_| d.take(2) as usize + 1).collect();
+                let ws: Vec<usize> = (0..c).map(|_| d.take(2) as usize + 1).collect();
+                let fill = d.take(1 << (r * c));
+                let bad = d.take((r * c + 1) as u64) as usize; // 0 = none, k = cell k-1 one row taller
+                return (r, c, hs, ws, fill, bad);
+            }
+            id -= n;
+        }
+        unreachable!()
+    }
+}
+impl Space for Grids {
+    fn name(&self) -> String {
+        "block-grids<=3x3".into()
+    }
+    fn size(&self) -> u64 {
+        Self::shapes().iter().map(|(r, c)| Self::per(*r, *c)).sum()
+    }
+    fn describe(&self, id: u64) -> Value {
+        let (r, c, hs, ws, fill, bad) = Self::decode(id);
+        json!({"block_rows": r, "block_cols": c, "row_heights": hs, "col_widths": ws, "fill_bits": fill, "mismatching_cell": bad})
+    }
+    fn bound(&self) -> Value {
+        json!({"grids": "1..3 x 1..3 (at most 6 cells)", "heights_widths": [1,2], "fills_per_block": 2, "one_mismatching_cell": true})
+    }
+    fn run(&self, id: u64, ctx: &mut Ctx) -> CaseResult {
+        let (r, c, hs, ws, fill, bad) = Self::decode(id);
+        let mut blocks: Vec<Vec<Dense>> = vec![];
+        let mut cell = 0usize;
+        for i in 0..r {
+            let mut row = vec![];
+            for j in 0..c {
+                let h = hs[i] + usize::from(bad == cell + 1);
+                let mut b = Dense::zeros(h, ws[j]);
+                for a in 0..h {
+                    for t in 0..ws[j] {
+                        let dense = fill >> cell & 1 == 1;
+                        if dense || (a + t) % 2 == 0 {
+                            b.set(a, t, (10 * (cell + 1) + 3 * a + t) as f64);
+                        }
+                    }
+                }
+                row.push(b);
+                cell += 1;
+            }
+            blocks.push(row);
+        }
+        let cs: Vec<Vec<CscMatrix<f64>>> = blocks.iter().map(|row| row.iter().map(|b| b.to_csc()).collect()).collect();
+        let refs: Vec<Vec<&CscMatrix<f64>>> = cs.iter().map(|row| row.iter().collect()).collect();
+        let rr: Vec<&[&CscMatrix<f64>]> = refs.iter().map(|row| row.as_slice()).collect();
+        let res = guarded(|| CscMatrix::hvcat(&rr)).map_err(|e| Violation::new("hvcat-panics", e))?;
+        ctx.transitions += 1;
+        if bad != 0 && c > 1 {
+            ensure!(res.is_err(), "hvcat-accepts-mismatch", "cell {} is one row taller: {:?}", bad - 1, blocks);
+            ctx.outcome("hvcat-err");
+            return Ok(());
+        }
+        if bad != 0 {
+            // a single block column: a taller block is simply a taller block row
+            ctx.outcome("single-column-taller-block(valid)");
+        }
+        let Ok(h) = res else {
+            return Err(Violation::new("hvcat-err-on-compatible", format!("{:?}", blocks)));
+        };
+        let heights: Vec<usize> = blocks.iter().map(|row| row[0].m).collect();
+        let (m, n) = (heights.iter().sum::<usize>(), ws.iter().sum::<usize>());
+        let mut w = Dense::zeros(m, n);
+        let mut r0 = 0;
+        for (i, row) in blocks.iter().enumerate() {
+            let mut c0 = 0;
+            for (j, b) in row.iter().enumerate() {
+                place(&mut w, b, r0, c0);
+                c0 += ws[j];
+            }
+            r0 += heights[i];
+        }
+        ensure!(is_canonical(&h), "hvcat-not-canonical", "{:?}", h);
+        ensure!((h.m, h.n) == (m, n) && csc_to_dense(&h) == w, "hvcat-values", "{:?} vs {:?}", h, w.rows());
+        ctx.outcome("hvcat-ok");
+        ctx.nontrivial += 1;
+        Ok(())
+    }
+}
+
 pub struct Concat {
     pub blocks: Vec<Dense>,
     pub arity: usize, // 2: hcat, vcat, blockdiag(2) ; 4: hvcat 2x2 + blockdiag(4→ first 3)
@@ -717,6 +826,7 @@ pub fn spaces(tier: &str, seed: u64) -> Vec<Box<dyn Space>> {
     let shapes = [(0, 1), (1, 0), (0, 0), (1, 1), (1, 2), (2, 1), (2, 2)];
     spaces.push(Box::new(Concat::new(&[0.0, 1.0, 2.0], &shapes, 2)));
     spaces.push(Box::new(Concat::new(&[0.0, 1.0], &shapes, 4)));
+    spaces.push(Box::new(Grids));
     spaces.push(Box::new(RandomLarge {
         count: if thorough { 200000 } else { 5000 },
         seed,
